@@ -3,7 +3,7 @@
 import json, os, shutil, sys, glob
 pid, wt = sys.argv[1], sys.argv[2]
 note = " ".join(sys.argv[3:])
-for d in sorted(glob.glob(os.path.join(wt, "_mut", "m*"))):
+for d in sorted(glob.glob(os.path.join(wt, "_mut", "m[0-9]*"))):
     n = os.path.basename(d)
     dst = "/verif/seeded/%s-agent-%s" % (pid, n)
     k = 1
